@@ -537,6 +537,19 @@ fn check_input(table: &bs::Table, input: &[u8], rep: &mut Report, thorough: bool
             rep.clause("C13/C17: with a size limit M no successful item declares a size above M, whatever classes are tolerated", !over, &ctx);
         }
     }
+    // C04 with a size limit configured: the limit bounds payload allocations, never the header look-ahead, so a small limit together
+    // with a small capacity must not change the result
+    for m in [1usize, 8] {
+        let lim = Cfg { max: Some(Some(m)), ..Cfg::strict() };
+        let want = run(input, &lim);
+        for (cap, chunk) in [(0usize, vec![]), (3, vec![1usize]), (11, vec![])] {
+            let cfg = Cfg { max: Some(Some(m)), cap, chunk, ..Cfg::strict() };
+            let t = run(input, &cfg);
+            check_total(input, &cfg, &t, rep);
+            rep.clause("C04: items, offsets and the first error (all fields) do not depend on buffer capacity or on how the source splits the bytes", same_trace(&t, &want),
+                       || format!("input={} {} -> {}   BUT slice/default with the same limit -> {}", rf::hex(input), cfg.show(), show_trace(&t), show_trace(&want)));
+        }
+    }
     {
         let cfg = Cfg { max: Some(None), ..Cfg::strict() };
         let t = run(input, &cfg);
